@@ -55,6 +55,19 @@ CHECKS = {
             "list variants and searches that collide with them; Sid.match is compared with the same oracle. Held on the executions produced.",
             "unfolded forms come from the real unfold_search (judged by C07); filters with URL metacharacters are not judged.",
             "runtime monitor (generator wrapper) on Finder.find + reference glob matcher over generated lists"),
+    "C05": ("exploration", "3 C05",
+            "round trip Sid -> path(c) -> Sid, purity (repeated, keyword/positional, str/Path, and across two processes that load the path "
+            "configurations in opposite order), injectivity over the whole generated set, equal relative paths between configurations and "
+            "None for pathless types, asserted on generated concrete Sids incl. names containing the file-name separator; an independent "
+            "renderer (R8) cross-checks each path. Held on the executions produced.",
+            "roots are derived as the common literal prefix of a configuration's templates; mappings are read from the live configuration.",
+            "runtime round-trip / metamorphic monitors on path() and Sid(path=) + reference path renderer"),
+    "C06": ("exploration", "3 C06",
+            "Sid(path=p, config=c) executed on tens of thousands of mutated paths (desynchronised duplicates, literal parts, dropped / added "
+            "components, control characters, switched roots): it must not raise, and a typed result must own exactly p; an independent "
+            "matcher with back-references says which mutants conform to no template. Held on the executions produced.",
+            "the 'must be untyped' clause is judged only where R8 classifies the mutant; 'typed => path(c) == p' on every path.",
+            "runtime monitor on Sid(path=) over mutated paths + reference path conformance model"),
 }
 
 NOT_YET = {}
